@@ -7,6 +7,7 @@ import TcVerif.Driver.TaskFam
 import TcVerif.Driver.JudgeTask
 import TcVerif.Driver.Seal
 import TcVerif.Driver.Backend
+import TcVerif.Driver.Wire
 
 open Tc.Driver
 
@@ -183,6 +184,26 @@ partial def loopJudgeBackend (h : IO.FS.Stream) (out : IO.FS.Stream) (j : BJ) : 
   for o in outs do out.putStrLn o
   loopJudgeBackend h out j'
 
+partial def loopWire (h : IO.FS.Stream) (out : IO.FS.Stream) : IO Unit := do
+  let line ← h.getLine
+  if line.isEmpty then return ()
+  if line.startsWith "#" then
+    out.putStrLn line.trimAscii.toString
+  else
+    out.putStrLn ("> " ++ line.trimAscii.toString)
+    for o in wireLine line do
+      out.putStrLn o
+  loopWire h out
+
+partial def loopJudgeWire (h : IO.FS.Stream) (out : IO.FS.Stream) (j : WJ) : IO Unit := do
+  let line ← h.getLine
+  if line.isEmpty then
+    for o in wjFlush j do out.putStrLn o
+    return ()
+  let (j', outs) := wjLine j (line.dropEndWhile (· == '\n')).toString
+  for o in outs do out.putStrLn o
+  loopJudgeWire h out j'
+
 def main (args : List String) : IO UInt32 := do
   let stdin ← IO.getStdin
   let stdout ← IO.getStdout
@@ -196,6 +217,8 @@ def main (args : List String) : IO UInt32 := do
   | ["model", "seal"] => loopSeal stdin stdout {} true; return 0
   | ["sealgen"] => loopSeal stdin stdout {} false; return 0
   | ["judge", "seal"] => loopJudgeSeal stdin stdout "" "" []; return 0
+  | ["model", "wire"] => loopWire stdin stdout; return 0
+  | ["judge", "wire"] => loopJudgeWire stdin stdout {}; return 0
   | ["model", "backend"] => loopBackend stdin stdout {}; return 0
   | ["judge", "backend"] => loopJudgeBackend stdin stdout {}; return 0
   | ["judge", "task"] => loopJudgeTask stdin stdout {}; return 0
